@@ -139,7 +139,8 @@ class GrammarGen:
             else:
                 pat = r.choice(list(regex_table.TABLE))
                 e = ("regex", pat, False)
-                delim = ("lit", "\x7f")
+                # the delimiter must lie outside the regex's alphabet (C05's grammar class)
+                delim = ("lit", regex_table.DELIM.get(pat, "\x7f"))
                 self.features.add("regex")
             if regex_table.may_match_empty(pat):
                 self.features.add("regex-may-match-empty")
@@ -287,7 +288,8 @@ def strip_style(e):
 
 
 def model_rules(rules):
-    return {k: strip_style(v) for k, v in rules.items()}
+    # the printing hint (6th field of "rep") is kept: classifiers need to tell `*` from `{0,}`
+    return dict(rules)
 
 
 def is_productive(rules):
@@ -417,3 +419,51 @@ def syntactic_features(rules):
             if r_ in names and names.index(r_) <= i:
                 f.add("recursion")
     return f
+
+
+def bitstruct_grammar(rng):
+    """Bit fields that do not start on byte boundaries, spread over nested nonterminals,
+    followed/preceded by byte-aligned bytes or text terminals. Total length is a multiple of 8."""
+    from collections import OrderedDict
+
+    nbytes = rng.randint(1, 3)
+    total = 8 * nbytes
+    sizes = []
+    left = total
+    while left > 0:
+        s = min(left, rng.randint(1, 7))
+        sizes.append(s)
+        left -= s
+    fields = []
+    rules = OrderedDict()
+    for i, s in enumerate(sizes):
+        kind = rng.choice(["const", "free", "mixed"])
+        if kind == "const":
+            e = ("seq", tuple(("bit", rng.randint(0, 1)) for _ in range(s))) if s > 1 else ("bit", rng.randint(0, 1))
+        elif kind == "free":
+            e = ("rep", ("alt", (("bit", 0), ("bit", 1))), s, s, None, "{n}")
+        else:
+            e = ("seq", (("bit", rng.randint(0, 1)),) + ((("rep", ("alt", (("bit", 0), ("bit", 1))), s - 1, s - 1, None, "{n}"),) if s > 1 else ()))
+        fields.append((f"<f{i}>", e))
+    # nest fields pairwise into groups
+    groups = []
+    i = 0
+    gi = 0
+    while i < len(fields):
+        k = rng.randint(1, 3)
+        chunk = fields[i:i + k]
+        i += k
+        gname = f"<g{gi}>"
+        gi += 1
+        rules_chunk = ("seq", tuple(("nt", n) for n, _ in chunk)) if len(chunk) > 1 else ("nt", chunk[0][0])
+        groups.append((gname, rules_chunk))
+    items = [("nt", g) for g, _ in groups]
+    pre = rng.choice([None, ("lit", b"\x01"), ("lit", "A"), ("regex", r"[a-c]+", True)])
+    post = rng.choice([None, ("lit", b"\xff\x00"), ("lit", "zz"), ("rep", ("lit", b"\x7f"), 0, 2, None, "{n,m}")])
+    seq = ([pre] if pre else []) + items + ([post] if post else [])
+    rules["<start>"] = ("seq", tuple(seq)) if len(seq) > 1 else seq[0]
+    for g, e in groups:
+        rules[g] = e
+    for n, e in fields:
+        rules[n] = e
+    return rules
